@@ -604,6 +604,9 @@ def wire_vector_mismatch(f):
             bad.append({'cfg': v['cfg'], 'difference': 'proof bytes differ from the recorded 0.4.0 proof'})
         elif not o.get('verify') or o['verify'][0]['result'] != 'ok' or o['verify'][0]['masks'] != v['masks']:
             bad.append({'cfg': v['cfg'], 'difference': 'recorded proof no longer verifies / recovers the recorded mask'})
+        elif o['verify'][0].get('reference_probe') and None not in o['verify'][0]['reference_probe'] and o['verify'][0]['logs_after'] != o['verify'][0]['reference_probe']:
+            bad.append({'cfg': v['cfg'], 'difference': 'after verification the caller\'s transcript is not in the documented state (what continues on it differs from the release)',
+                        'library': o['verify'][0]['logs_after'], 'documented': o['verify'][0]['reference_probe']})
         if len(bad) >= 2:
             break
     return (len(bad) > 0), bad[:2]
